@@ -15,6 +15,33 @@ double bspline(const double* knots, double x, int i, int n);
 double bspline_deriv(const double* knots, double x, int i, int n, unsigned order);
 
 /*
+ * Like bspline_deriv(), but for the polynomial piece which lives on the knot
+ * interval `span` (knots[span] < knots[span+1]) instead of the piece picked
+ * by the half-open interval convention, so that derivatives at a knot agree
+ * with the one-sided convention used by the evaluation routines below.
+ */
+double bspline_deriv_span(const double* knots, double x, int span, int i, int n,
+    unsigned order);
+
+/*
+ * The knot interval whose polynomial piece bsplvb_simple() and friends
+ * evaluate at x when handed `left` as the nearest fully-supported knot span
+ * of an order-n spline.
+ */
+inline int bspline_interval(const double* knots, const unsigned nknots,
+    double x, int left, int n)
+{
+	if (left == n)
+		while (left >= 0 && (x < knots[left] ||
+		    (x == knots[left] && knots[left] == knots[left+1])))
+			left--;
+	if (left == int(nknots)-n-2)
+		while (left < int(nknots)-1 && x > knots[left+1])
+			left++;
+	return left;
+}
+
+/*
  * A brain-dead reimplementation of de Boor's BSPLVB, which generates
  * the values of the non-zero B-splines at x from the bottom up without
  * unnecessarily recalculating terms. 
